@@ -712,3 +712,41 @@ MUTANTS += [
         }''')],
      'expect': {'C05': None, 'C10': None, 'C04': None, 'C18': None}},
 ]
+
+MUTANTS += [
+    # to_string: the remaining space computed with a conditional expression and the bookkeeping after the ',' written as a subtraction
+    {'name': 'silent_to_string_available_forms', 'edits': [(P, '''    size_t available = 0;
+    if (ctx->buffer_used < ctx->buffer_size) {
+        available = ctx->buffer_size - ctx->buffer_used;
+    }
+''', '''    size_t available = (ctx->buffer_size > ctx->buffer_used) ? (ctx->buffer_size - ctx->buffer_used) : 0;
+'''), (P, '''        pbuf = &ctx->buffer[ctx->buffer_used];
+        if (available > 0) {
+            available--;
+        }
+    }
+
+    if (*pstate == 0x04) {''', '''        pbuf = &ctx->buffer[ctx->buffer_used];
+        if (available >= 1) {
+            available = available - 1;
+        }
+    }
+
+    if (*pstate == 0x04) {''')],
+     'expect': {'C13': None, 'C01': None, 'C14': None}},
+    # writer reset: the two assignments swapped and the size test written the other way round
+    {'name': 'silent_writer_reset_reordered', 'edits': [(W, '''    if (writer->buffer_size < 2) {
+        writer->error_flags = BINSON_ERROR_RANGE;
+        return false;
+    }
+
+    writer->buffer_used = 0;
+    writer->error_flags = BINSON_ERROR_NONE;''', '''    if (!(writer->buffer_size >= 2)) {
+        writer->error_flags = BINSON_ERROR_RANGE;
+        return false;
+    }
+
+    writer->error_flags = BINSON_ERROR_NONE;
+    writer->buffer_used = 0;''')],
+     'expect': {'C12': None, 'C04': None, 'C09': None}},
+]
